@@ -348,12 +348,16 @@ func runHs(t *testing.T, ksc KScenario, res *KResult) {
 	}
 	var curCancel atomic.Value // context.CancelFunc of the dial in progress
 	var vnCancelled, dialDone atomic.Bool
+	var cancelWG sync.WaitGroup // (the run does not end while a canceller is still counting down)
+	defer cancelWG.Wait()
 	w.OnDeliver = func(rec *DgramRec, data []byte, damaged bool) {
 		prevDeliver(rec, data, damaged)
 		if rec.Dir == 1 && sc.CancelAtVNUS > 0 && !damaged && len(rec.Pkts) == 1 && rec.Pkts[0].Type == TapVN && vnCancelled.CompareAndSwap(false, true) {
-			if c, ok := curCancel.Load().(context.CancelFunc); ok {
+			if c, ok := curCancel.Load().(context.CancelFunc); ok && !dialDone.Load() {
 				res.Probe("dial-cancelled-at-version-negotiation")
+				cancelWG.Add(1)
 				go func() {
+					defer cancelWG.Done()
 					if sc.CancelAtVNUS < 100 {
 						// the same instant, a few scheduling steps later: somewhere between the connection's run loop
 						// deciding to be re-created and the dialer learning of it
@@ -909,6 +913,22 @@ func hsCheckOutcome(w *World, sc *HsScenario, n *Nodes, d *hsDialResult, idx int
 		if sc.CancelAtVNUS > 0 && errors.Is(cerr, context.Canceled) {
 			res.Probe("cancelled-dial-returned")
 			cerr = nil // the application's own doing; what matters is that Dial returned (and that nothing is left behind)
+		}
+		var ie *quic.IdleTimeoutError
+		if errors.As(cerr, &ie) && d.sconn == nil && d.conn != nil {
+			// The server never completed the handshake and gave up in silence (a handshake idle timeout sends nothing), the
+			// client then starves. When client Handshake packets were lost, that is the network's doing: the client's
+			// retransmissions back off exponentially and may come later than the server is willing to wait.
+			lost := false
+			for _, rec := range w.Log[0] {
+				if rec.SentNS >= w.NowNS()-int64(time.Hour) && (len(rec.Delivered) == 0 || rec.Damaged) && wHasType(rec, TapHandshake) {
+					lost = true
+				}
+			}
+			if lost {
+				res.Probe("server-handshake-starved-by-lost-client-handshake-packets")
+				cerr = nil
+			}
 		}
 		if cerr != nil || d.serr != nil {
 			serr := d.serr
